@@ -310,48 +310,63 @@ def run_check(check, tier, workers=None):
     known_lines = []
     exit_code = 0
     os.makedirs(REPLAYS, exist_ok=True)
+    unreplayable = []
     for sig, rs in sorted(groups.items(), key=lambda kv: kv[1][0]["idx"])[:8]:
-        r = rs[0]
-        plan = check.gen(seed, tier, r["idx"])
-        orig_ops = len(plan.get("ops", []))
+        done = False
+        last_out = ""
+        for r in rs[:3]:          # a violation that does not replay is never reported: try other runs of the group
+            plan = check.gen(seed, tier, r["idx"])
+            orig_ops = len(plan.get("ops", []))
 
-        def fails(p, _sig=sig):
-            res = check.run(p)
-            return (not res["ok"]) and check.signature(res["violation"]) == _sig
+            def fails(p, _sig=sig):
+                res_ = check.run(p)
+                return (not res_["ok"]) and check.signature(res_["violation"]) == _sig
 
-        try:
-            short = check.pre_minimize(plan, r["violation"])
-            if short is not None and fails(short):
-                plan = short
-                r = dict(r)
-                r["violation"] = dict(r["violation"], op_index=None)
-            mplan = minimize(plan, fails, check.reductions, max_tests=check.max_minimise_tests[tier],
-                             op_index=r["violation"].get("op_index"))
-            for _attempt in range(max(1, check.replay_attempts)):
-                res = check.run(mplan)
-                if not res["ok"]:
-                    break
-        except Exception:  # noqa: BLE001
-            harness_error("minimiser failed: %s" % traceback.format_exc()[-800:])
-        if res["ok"]:
-            harness_error("minimised plan does not fail any more (run %d)" % r["idx"])
-        replay = {"property": prop, "tier": tier, "seed": seed, "run_index": r["idx"],
-                  "signature": list(sig), "violation": res["violation"], "digest": res.get("digest"),
-                  "plan": {k: v for k, v in mplan.items() if not k.startswith("_")},
-                  "minimised": {"ops_before": orig_ops, "ops_after": len(mplan.get("ops", [])),
-                                "tests": mplan.get("_minimise_tests")},
-                  "runs_in_group": len(rs)}
-        path = os.path.join(REPLAYS, "%s-%d-%d.json" % (prop, seed, r["idx"]))
-        write_json(path, replay)
-        ok, out = run_replay_subprocess(path, check.replay_attempts)
-        if not ok:
-            harness_error("violation at run %d does not replay in a fresh interpreter:\n%s" % (r["idx"], out))
-        k = match_known(findings, prop, replay)
-        if k is not None:
-            known_lines.append("KNOWN-FINDING: property=%s %s" % (prop, k.get("text", "")))
-        else:
-            reported.append((path, res["violation"]))
-            exit_code = 1
+            try:
+                viol_r = r["violation"]
+                short = check.pre_minimize(plan, viol_r)
+                if short is not None and fails(short):
+                    plan = short
+                    viol_r = dict(viol_r, op_index=None)
+                mplan = minimize(plan, fails, check.reductions, max_tests=check.max_minimise_tests[tier],
+                                 op_index=viol_r.get("op_index"))
+                for _attempt in range(max(1, check.replay_attempts)):
+                    res = check.run(mplan)
+                    if not res["ok"]:
+                        break
+            except Exception:  # noqa: BLE001
+                harness_error("minimiser failed: %s" % traceback.format_exc()[-800:])
+            if res["ok"]:
+                last_out = "minimised plan of run %d does not fail any more" % r["idx"]
+                continue
+            replay = {"property": prop, "tier": tier, "seed": seed, "run_index": r["idx"],
+                      "signature": list(sig), "violation": res["violation"], "digest": res.get("digest"),
+                      "plan": {k: v for k, v in mplan.items() if not k.startswith("_")},
+                      "minimised": {"ops_before": orig_ops, "ops_after": len(mplan.get("ops", [])),
+                                    "tests": mplan.get("_minimise_tests")},
+                      "runs_in_group": len(rs)}
+            path = os.path.join(REPLAYS, "%s-%d-%d.json" % (prop, seed, r["idx"]))
+            write_json(path, replay)
+            ok, out = run_replay_subprocess(path, check.replay_attempts)
+            if not ok:
+                last_out = "violation at run %d does not replay in a fresh interpreter:\n%s" % (r["idx"], out)
+                try:
+                    os.unlink(path)
+                except OSError:
+                    pass
+                continue
+            k = match_known(findings, prop, replay)
+            if k is not None:
+                known_lines.append("KNOWN-FINDING: property=%s %s" % (prop, k.get("text", "")))
+            else:
+                reported.append((path, res["violation"]))
+                exit_code = 1
+            done = True
+            break
+        if not done:
+            unreplayable.append(last_out)
+    if unreplayable and not reported:
+        harness_error(unreplayable[0])
 
     wall = time.time() - t0
     runs = len(records)
